@@ -163,4 +163,8 @@ PARTS = [
     Part('masks', check_masks, strategy=lambda tier: mask_cases(),
          budget={'quick': 250, 'thorough': 5000},
          describe='get_mystery_jump_mask / get_true_interval_masks'),
+    Part('masks_fuzz', check_masks, fuzz_of='masks', fuzz_runs=60000,
+         shards={'quick': 0, 'thorough': 4},
+         describe='atheris campaign over the mask kernels '
+                  '(thorough tier only)'),
 ]
